@@ -58,11 +58,12 @@ def execute(case):
         return out
     changed = compat.text(P) != before
     digests = []
+    cache: dict = {}
     for i, env in enumerate(case["envs"]):
         out["runs"] += 1
         out["zero_fault_runs"] += is_zero_fault(env)
         try:
-            m = run_machine(P, env, accs, "sub", check_infer=True, check_thread=True)
+            m = run_machine(P, env, accs, "sub", check_infer=True, check_thread=True, infer_cache=cache)
         except Violation as v:
             out.update(status="violation", oracle=v.oracle, message=v.message, env_index=i)
             return out
